@@ -125,6 +125,15 @@ def _conv(kind, a):
         if a and isinstance(a[0], tuple):
             return {int(k): int(v) for _, k, v in a}
         return [int(x) for x in a]
+    if kind == 'hroots':
+        if a and isinstance(a[0], tuple):
+            return {int(k): int(v) for _, k, v in a}
+        return [int(x) for x in a]
+    if kind == 'jnodes':
+        def ref(x):
+            return x if x in ('T', 'F') else int(x)
+        return _impl.JNodes((int(k), int(l), ref(lo), ref(hi))
+                            for _, k, (_, l, (_, lo, hi)) in a)
     if kind == 'dnn':
         return {int(k): int(v) for _, k, v in a}
     if kind == 'dnb':
@@ -147,6 +156,7 @@ ASIGS = {
     'gc': [], 'reorder': ['odnn'], 'configure': ['obool'], 'set_last_len': ['oint'],
     'set_trig': ['oint'], 'copy': ['int', 'int'], 'shutdown': [],
     'add_expr': ['spell'], 'to_expr': ['int'],
+    'json_dump': ['hroots', 'lint'], 'json_load': ['dnn', 'roots', 'jnodes', 'bool'],
 }
 
 
@@ -194,6 +204,8 @@ class Session:
         elif name in ('dump', 'dump_manager') and not res.startswith('ok:'):
             # rejected before anything was written: the oracles are unused
             args = tuple(args) + (([], []) if name == 'dump' else ([],))
+        elif name == 'json_dump' and not res.startswith('ok:'):
+            args = tuple(args) + ([],)
         if tape:
             self.lines.append(f'{m} tape {_impl.fmt_arg(tape)}')
             self.expect.append(None)
